@@ -64,6 +64,11 @@ struct Cfg {
     /// the same method was called once before with the same arguments and an implicit id (an identical
     /// instruction / declaration already exists when the measured call with an explicit id is made)
     prior_identical: bool,
+    /// the measured call is made into a block that already ends in a terminator and was re-selected
+    reselect_terminated: bool,
+    /// Some(w): the literal's type (result type / switch selector type) is declared as a signed w-bit integer first and
+    /// the 32-bit literal arguments have all their high bits set (a sign-extended negative narrow value)
+    narrow: Option<u32>,
 }
 
 fn needs_block(site: &CallSite) -> bool {
@@ -98,6 +103,9 @@ fn check_site(site: &CallSite, cfg: &Cfg) -> SiteResult {
     args.choice_at = cfg.choice_at;
     args.choice = 0;
     args.insert_at_begin = cfg.insert_begin;
+    if cfg.narrow.is_some() {
+        args.u32_base = 0xFFFF_F000;
+    }
     // ids are taken from the builder: a pool of 320 is reserved up front and the arguments are drawn from it
     args.word_base = 1;
     args.word_step = 16;
@@ -109,7 +117,7 @@ fn check_site(site: &CallSite, cfg: &Cfg) -> SiteResult {
     let rep = json!({"kind": "builder-call", "method": site.name, "config": cfg_s, "cfg": {
         "explicit_id": cfg.explicit_id, "opt_upto": if cfg.opt_upto == usize::MAX { -1i64 } else { cfg.opt_upto as i64 }, "list_len": cfg.list_len,
         "choice_at": cfg.choice_at.map(|(a, b)| vec![a, b]), "in_block": cfg.in_block, "insert_begin": cfg.insert_begin,
-        "version_late": cfg.version_late, "prior_identical": cfg.prior_identical}});
+        "version_late": cfg.version_late, "prior_identical": cfg.prior_identical, "reselect_terminated": cfg.reselect_terminated, "narrow": cfg.narrow}});
     let mut out = SiteResult { viols: vec![], c16: vec![], outcome: "checked" };
     // a parameterised mask whose parameters cannot be expressed through this method's signature: the single
     // `additional_params` list comes after a LATER value parameter, so the grammar order is not reachable
@@ -145,6 +153,16 @@ fn check_site(site: &CallSite, cfg: &Cfg) -> SiteResult {
                 b.type_int_id(Some(args.word(rt)), 64, 0);
             }
         }
+        if let Some(w) = cfg.narrow {
+            if site.name == "switch" {
+                // selector: an OpUndef of a signed w-bit type at module scope
+                let t = b.id();
+                b.type_int_id(Some(t), w, 1);
+                b.undef(t, Some(args.word(0)));
+            } else if let Some(rt) = site.params.iter().position(|p| p.name == "result_type") {
+                b.type_int_id(Some(args.word(rt)), w, 1);
+            }
+        }
         if block_ctx {
             b.begin_function(rty, Some(fid), spirv::FunctionControl::NONE, fty).map_err(|e| ("setup".to_string(), format!("{:?}", e)))?;
             b.begin_block(Some(lid)).map_err(|e| ("setup".to_string(), format!("{:?}", e)))?;
@@ -152,6 +170,10 @@ fn check_site(site: &CallSite, cfg: &Cfg) -> SiteResult {
                 // an instruction no measured call can emit identically (its result id is one no call receives)
                 let uid = b.id();
                 b.undef(rty, Some(uid));
+            }
+            if cfg.reselect_terminated {
+                b.ret().map_err(|e| ("setup".to_string(), format!("{:?}", e)))?;
+                b.select_block(Some(0)).map_err(|e| ("setup".to_string(), format!("{:?}", e)))?;
             }
         }
         if cfg.prior_identical {
@@ -174,6 +196,24 @@ fn check_site(site: &CallSite, cfg: &Cfg) -> SiteResult {
             Out::ResWord(Err(e)) | Out::ResUnit(Err(e)) => return Err(("call-failed".into(), format!("returned Err({}) in a context where the instruction is legal", e))),
         };
         let _ = ok;
+        let gi = g.inst(site.opcode);
+        let module_level_method = matches!(site.name, "capability" | "extension" | "ext_inst_import" | "memory_model" | "entry_point" | "execution_mode" | "execution_mode_id" | "decoration_group" | "string" | "type_forward_pointer" | "type_pointer" | "type_opaque" | "constant_bit32" | "constant_bit64" | "spec_constant_bit32" | "spec_constant_bit64")
+            || matches!(site.file, "autogen_type.rs" | "autogen_constant.rs" | "autogen_annotation.rs" | "autogen_debug.rs");
+        let in_blk = block_ctx && !module_level_method;
+        // ---- C16 (Builder half), decided as soon as the call has returned (whatever else the call did): the block is
+        //      ended exactly for the opcodes the terminator predicate accepts
+        if in_blk {
+            let op = spirv::Op::from_u32(gi.opcode as u32).unwrap();
+            let is_term_pred = rspirv::grammar::reflect::is_block_terminator(op);
+            let cleared = b.selected_block().is_none();
+            if cleared != is_term_pred {
+                out.c16.push(viol(
+                    format!("C16:builder-ends-block:{}", site.opcode),
+                    format!("Builder::{} {} the block but is_block_terminator(Op{}) = {} ({:?})", site.name, if cleared { "ends" } else { "does not end" }, site.opcode, is_term_pred, cfg),
+                    json!({"kind": "builder-call", "method": site.name}),
+                ));
+            }
+        }
         let after = flatten(&snap(b.module_ref()));
         // the emitted instruction: exactly one new instruction
         if after.len() != before.len() + 1 {
@@ -186,7 +226,6 @@ fn check_site(site: &CallSite, cfg: &Cfg) -> SiteResult {
             return Err(("emitted-count".into(), "the call changed more than one instruction".into()));
         }
         // expected instruction: the method's opcode, arguments in grammar order
-        let gi = g.inst(site.opcode);
         let mut passed: Vec<Arg> = vec![];
         let mut rtype = None;
         for (i, p) in site.params.iter().enumerate() {
@@ -210,9 +249,6 @@ fn check_site(site: &CallSite, cfg: &Cfg) -> SiteResult {
         if emitted.args != expected.args {
             return Err(("operands".into(), format!("emitted {} ; the call's arguments in grammar order are {}", emitted.short(), expected.short())));
         }
-        let module_level_method = matches!(site.name, "capability" | "extension" | "ext_inst_import" | "memory_model" | "entry_point" | "execution_mode" | "execution_mode_id" | "decoration_group" | "string" | "type_forward_pointer" | "type_pointer" | "type_opaque" | "constant_bit32" | "constant_bit64" | "spec_constant_bit32" | "spec_constant_bit64")
-            || matches!(site.file, "autogen_type.rs" | "autogen_constant.rs" | "autogen_annotation.rs" | "autogen_debug.rs");
-        let in_blk = block_ctx && !module_level_method;
         // the block that was selected when the measured call was made, and its length then (insertion at the end)
         let cur_block = before.iter().filter(|x| x.0.ends_with(".label")).count().saturating_sub(1);
         let want_path = if in_blk { format!("f0.b{}", cur_block) } else { where_expected(site, false) };
@@ -230,18 +266,9 @@ fn check_site(site: &CallSite, cfg: &Cfg) -> SiteResult {
             }
         }
         // ---- C16 (Builder half): the block is ended exactly for the opcodes the terminator predicate accepts
-        let op = spirv::Op::from_u32(gi.opcode as u32).unwrap();
-        let is_term_pred = rspirv::grammar::reflect::is_block_terminator(op);
         let mut recovered = false;
         if in_blk {
             let cleared = b.selected_block().is_none();
-            if cleared != is_term_pred {
-                out.c16.push(viol(
-                    format!("C16:builder-ends-block:{}", site.opcode),
-                    format!("Builder::{} {} the block but is_block_terminator(Op{}) = {}", site.name, if cleared { "ends" } else { "does not end" }, site.opcode, is_term_pred),
-                    json!({"kind": "builder-call", "method": site.name}),
-                ));
-            }
             // complete the history: each begun block is ended by a terminator call
             if cleared && !g.in_class("terminator", site.opcode) {
                 b.select_block(Some(cur_block)).map_err(|e| ("setup".to_string(), format!("{:?}", e)))?;
@@ -254,7 +281,7 @@ fn check_site(site: &CallSite, cfg: &Cfg) -> SiteResult {
         }
         // a terminator inserted in front of other instructions leaves a block the loader would split differently:
         // the round trip is only meaningful when the terminator is last
-        let terminator_not_last = in_blk && cfg.insert_begin && g.in_class("terminator", site.opcode) && site.params.iter().any(|p| p.ty == Ty::InsertPoint);
+        let terminator_not_last = in_blk && cfg.reselect_terminated || in_blk && cfg.insert_begin && g.in_class("terminator", site.opcode) && site.params.iter().any(|p| p.ty == Ty::InsertPoint);
         if b.selected_function().is_some() {
             b.end_function().map_err(|e| ("setup".to_string(), format!("{:?}", e)))?;
         }
@@ -317,7 +344,7 @@ fn check_site(site: &CallSite, cfg: &Cfg) -> SiteResult {
 }
 
 fn configs(site: &CallSite, tier: Tier) -> Vec<Cfg> {
-    let base = Cfg { explicit_id: false, opt_upto: usize::MAX, list_len: 2, choice_at: None, in_block: false, insert_begin: false, version_late: false, prior_identical: false };
+    let base = Cfg { explicit_id: false, opt_upto: usize::MAX, list_len: 2, choice_at: None, in_block: false, insert_begin: false, version_late: false, prior_identical: false, reselect_terminated: false, narrow: None };
     let mut v = vec![base.clone(), Cfg { version_late: true, ..base.clone() }];
     let has_id = site.params.iter().any(is_result_id_param);
     let has_ip = site.params.iter().any(|p| p.ty == Ty::InsertPoint);
@@ -339,8 +366,14 @@ fn configs(site: &CallSite, tier: Tier) -> Vec<Cfg> {
     if matches!(site.name, "variable" | "undef" | "line" | "no_line") {
         v.push(Cfg { in_block: true, ..base.clone() });
     }
+    if matches!(site.name, "constant_bit32" | "spec_constant_bit32" | "switch") {
+        for w in [8, 16, 32] {
+            v.push(Cfg { narrow: Some(w), ..base.clone() });
+        }
+    }
     if has_ip || needs_block(site) {
         v.push(Cfg { insert_begin: true, ..base.clone() });
+        v.push(Cfg { reselect_terminated: true, ..base.clone() });
     }
     // every enumerant / mask variation of each value parameter, one position at a time (quick: a strided subset)
     for (i, p) in site.params.iter().enumerate() {
@@ -700,6 +733,8 @@ fn main() {
                     insert_begin: c["insert_begin"].as_bool()?,
                     version_late: c["version_late"].as_bool()?,
                     prior_identical: c["prior_identical"].as_bool()?,
+                    reselect_terminated: c["reselect_terminated"].as_bool().unwrap_or(false),
+                    narrow: c["narrow"].as_u64().map(|x| x as u32),
                 };
                 let res = check_site(site, &cfg);
                 Some(res.viols.iter().chain(res.c16.iter()).map(|v| v.what.clone()).collect())
